@@ -447,6 +447,49 @@ fn find_in_items(items: &[syn::Item], path: &[String]) -> Option<Found> {
                     tokens: names.join(","),
                 });
             }
+            // `use@Ident`: the full path under which `Ident` is imported into this scope
+            syn::Item::Use(u) if cfg_active(&u.attrs) && path.len() == 1 && path[0].starts_with("use@") => {
+                let want = &path[0][4..];
+                fn walk(t: &syn::UseTree, prefix: &mut Vec<String>, want: &str, out: &mut Option<Vec<String>>) {
+                    match t {
+                        syn::UseTree::Path(p) => {
+                            prefix.push(p.ident.to_string());
+                            walk(&p.tree, prefix, want, out);
+                            prefix.pop();
+                        }
+                        syn::UseTree::Name(n) => {
+                            if n.ident == want {
+                                let mut v = prefix.clone();
+                                v.push(n.ident.to_string());
+                                *out = Some(v);
+                            }
+                        }
+                        syn::UseTree::Rename(r) => {
+                            if r.rename == want {
+                                let mut v = prefix.clone();
+                                v.push(r.ident.to_string());
+                                *out = Some(v);
+                            }
+                        }
+                        syn::UseTree::Group(g) => {
+                            for i in &g.items {
+                                walk(i, prefix, want, out);
+                            }
+                        }
+                        syn::UseTree::Glob(_) => {}
+                    }
+                }
+                let mut found = None;
+                walk(&u.tree, &mut vec![], want, &mut found);
+                if let Some(segs) = found {
+                    return Some(Found {
+                        line: u.span().start().line,
+                        params: "[]".to_string(),
+                        body: format!("[(EPath {})]", clist(segs.iter().map(|x| cstr(x)).collect())),
+                        tokens: segs.join("::"),
+                    });
+                }
+            }
             // `fields@Type`: the types of a struct's fields, in order, each printed as a one-segment
             // path holding the type's tokens without spaces
             syn::Item::Struct(st)
